@@ -17,7 +17,7 @@ ORACLE = ('the tokenised line is the line header, then the bytes the token table
 BOUNDS = {'keywords': 'every keyword of the dialect table (advanced 182, pcjr/tandy 184), alone on a numbered line, '
                       'followed by " X" and run together with "X"; every letter independently upper or lower case (symbolic case bits)',
           'numbers': 'decimal literals of 1..5 symbolic digits without leading zero and value <= 32767 after "A="; '
-                     '&H + 1..4 symbolic hex digits of either case; &O + 1..6 octal digits <= 177777; '
+                     'five-digit literals 32768..99999 (single-precision token holding exactly that value); ELSE, EQV and nine other keywords after a digit with and without a blank; &H + 1..4 symbolic hex digits of either case; &O + 1..6 octal digits <= 177777; '
                      'jump numbers 0..65529 after GOTO/GOSUB/THEN/RESTORE and line numbers 1..65529 of 1..5 digits',
           'outside': 'single and double literals (decimal conversion is C07/C08, not encodable), statements '
                      'from a grammar, spacing rules between adjacent tokens beyond the two templates, strings, '
@@ -226,6 +226,39 @@ def body_linenum(h):
     return [list(got), list(listed)]
 
 
+AFTER_NUMBER = [b'ELSE', b'EQV', b'THEN', b'AND', b'OR', b'XOR', b'IMP', b'MOD', b'TO', b'STEP', b'GOTO']
+
+
+def body_number_then_keyword(h):
+    """a keyword that follows a number (ELSE and EQV must not be taken for an exponent)"""
+    tk, tok, lis, kw = _mk(h, 'advanced')
+    word = h.choice('k', AFTER_NUMBER)
+    gap = h.choice('gap', [b' ', b''])
+    d = h.int('d', 0, 9)
+    line = _sym_bytes(h, list(b'10 ?') + [48 + d] + list(gap) + _cased(h, word, 'c'))
+    got = _tokenise(tok, line)
+    want = list(HEADER) + [10, 0] + list(kw.to_token[b'PRINT']) + [0x11 + d] + list(gap) + list(_expected_keyword(tk, kw, word))
+    h.require('keyword-after-number-whatever-the-case', s_and(len(got) == len(want), bytes_eq(got, want)), got)
+    return [list(got)]
+
+
+def body_decimal_single(h):
+    """five-digit literals above 32767 are single-precision tokens holding exactly that value"""
+    tk, tok, lis, kw = _mk(h, 'advanced')
+    ds, v = _digits(h, 5, 'd')
+    h.assume(v >= 32768)
+    text = [48 + d for d in ds]
+    line = _sym_bytes(h, list(b'10 A=') + text)
+    got = list(_tokenise(tok, line))
+    head = list(HEADER) + [10, 0] + list(b'A') + list(kw.to_token[b'='])
+    h.require('single-token', s_and(len(got) == len(head) + 5, bytes_eq(got[:len(head)], head), got[len(head)] == 0x1d), got)
+    if len(got) == len(head) + 5:
+        r = FVal.of_raw(got[len(head) + 1:])
+        w = FVal.of_int(v, bits=17)
+        h.require('single-holds-the-value', f_eq(r, w), got[len(head) + 1:])
+    return [got]
+
+
 def cases(tier):
     cs = []
     for syntax in ('advanced', 'pcjr', 'tandy'):
@@ -235,6 +268,8 @@ def cases(tier):
         cs.append(Case('decimal-%d' % n, body_decimal, params={'n': n}, timeout_s=900, extra_globals=EG))
         cs.append(Case('jump-%d' % n, body_jump, params={'n': n}, timeout_s=900))
         cs.append(Case('linenum-%d' % n, body_linenum, params={'n': n}, timeout_s=900))
+    cs.append(Case('number-then-keyword', body_number_then_keyword, timeout_s=900, max_fanout=100))
+    cs.append(Case('decimal-5-single', body_decimal_single, timeout_s=1800, extra_globals=EG))
     for n in range(1, 5):
         cs.append(Case('hex-%d' % n, body_hex, params={'n': n}, timeout_s=900))
     for n in range(1, 7):
